@@ -80,6 +80,7 @@ func c09Gen(g *G) {
 			all[j] = j
 		}
 		plan := []string{"g" + rsJoinInts("", all, "+"), fmt.Sprintf("w%d", k)}
+		seen := k // request frames the server has seen so far (the w<n> steps wait for that many)
 		if r.Intn(4) == 0 {
 			// some requests are rejected once (new salt) before they are answered
 			sub := rsPerm(r, k)[:1+r.Intn(k)]
@@ -87,7 +88,8 @@ func c09Gen(g *G) {
 			for _, c := range sub {
 				plan = append(plan, fmt.Sprintf("r%d/%d", c, salt))
 			}
-			plan = append(plan, fmt.Sprintf("w%d", k+len(sub)))
+			seen += len(sub)
+			plan = append(plan, fmt.Sprintf("w%d", seen))
 		}
 		plan = append(plan, rsAnswerPlan(r, order, []string{"p", "k"})...)
 		tag := "concurrent"
@@ -98,7 +100,7 @@ func c09Gen(g *G) {
 			if r.Bool() {
 				plan = append(plan, fmt.Sprintf("d%d", sub[0]))
 			}
-			plan = append(plan, "g"+rsJoinInts("", sub, "+"), fmt.Sprintf("w%d", k+len(sub)))
+			plan = append(plan, "g"+rsJoinInts("", sub, "+"), fmt.Sprintf("w%d", seen+len(sub)))
 			plan = append(plan, rsAnswerPlan(r, sub, []string{"p"})...)
 			tag = "two-rounds"
 		}
